@@ -93,3 +93,22 @@ Theorem C06_built_globs_without_repetitions_have_no_adjacent_zero_or_more_wildca
   build e = BuildOk t r -> rep_free t = true -> forall x, Expands t x -> zchain false x = true.
 Proof. exact built_no_adjacent_zoms. Qed.
 Print Assumptions C06_built_globs_without_repetitions_have_no_adjacent_zero_or_more_wildcards.
+
+From WaxProofs Require Import RuleCompleteFacts.
+
+(* the other direction for the boundary rule - no false rejection, "the verdict depends only on its own neighbours": for expressions
+   without repetitions, an AdjacentBoundary verdict (from the rule inside a concatenation or from the breadth-first branch check) always has
+   a witness - some choice of branches yields a sequence that does hold two adjacent boundaries.  Every item the branch check reaches is
+   *embedded*: its expansions occur in expansions of the whole tree immediately between expansions of the outer left and right tokens it is
+   checked against, so the contexts nested branches inherit are real neighbours (C06_reached_items_are_embedded); a token that can end
+   (begin) with a boundary has an expansion that does.  Together with C06_passing_globs_have_no_adjacent_boundaries_in_any_expansion this is
+   "exactly" for that rule; the false rejection `{a/}x{/c}` and the context leak `{{/a,b}c,d}x{e,f}` of the pinned tree (repaired: 5c8dd9b,
+   592b703) are instances the theorems now exclude *)
+Theorem C06_adjacent_boundary_verdicts_have_a_witness : forall e t sp, parse e = ParseOk t -> rep_free t = true ->
+  check t = Ok (Some (AdjacentBoundary, sp)) -> exists x, Expands t x /\ chain_ok false x = false.
+Proof. exact parsed_adjacent_boundary_is_real. Qed.
+Print Assumptions C06_adjacent_boundary_verdicts_have_a_witness.
+
+Theorem C06_reached_items_are_embedded : forall root it d, reach it d -> Inv root it -> Inv root d.
+Proof. exact reach_inv. Qed.
+Print Assumptions C06_reached_items_are_embedded.
